@@ -431,3 +431,70 @@ def bool_equiv(a: ast.expr, b) -> bool:
         if fa(env) != fb(env):
             return False
     return True
+
+
+# --------------------------------------------------------------- canonical spelling of small expressions
+class _Canon(ast.NodeTransformer):
+    """orientation-free spelling: operands of commutative operators sorted, `a > b` -> `b < a`, `a >= b` -> `b <= a`,
+    x.dot(y) -> x @ y, np.transpose(X) -> X.T, np.dot(a, b) -> a @ b, unary plus dropped, float literals that are
+    integers written as integers"""
+
+    def visit_BinOp(self, n: ast.BinOp):
+        self.generic_visit(n)
+        if isinstance(n.op, (ast.Add, ast.Mult, ast.BitAnd, ast.BitOr)):
+            a, b = sorted([n.left, n.right], key=lambda x: ast.dump(x))
+            n.left, n.right = a, b
+        return n
+
+    def visit_BoolOp(self, n: ast.BoolOp):
+        self.generic_visit(n)
+        n.values = sorted(n.values, key=lambda x: ast.dump(x))
+        return n
+
+    def visit_Compare(self, n: ast.Compare):
+        self.generic_visit(n)
+        if len(n.ops) == 1:
+            op = n.ops[0]
+            if isinstance(op, ast.Gt):
+                return ast.Compare(left=n.comparators[0], ops=[ast.Lt()], comparators=[n.left])
+            if isinstance(op, ast.GtE):
+                return ast.Compare(left=n.comparators[0], ops=[ast.LtE()], comparators=[n.left])
+            if isinstance(op, (ast.Eq, ast.NotEq, ast.Is, ast.IsNot)):
+                a, b = sorted([n.left, n.comparators[0]], key=lambda x: ast.dump(x))
+                return ast.Compare(left=a, ops=[op], comparators=[b])
+        return n
+
+    def visit_Call(self, c: ast.Call):
+        self.generic_visit(c)
+        d = dotted(c.func) or ""
+        if isinstance(c.func, ast.Attribute) and c.func.attr == "dot" and len(c.args) == 1 and not c.keywords and not d.startswith(("np.", "numpy.")):
+            return ast.BinOp(left=c.func.value, op=ast.MatMult(), right=c.args[0])
+        if d in ("np.dot", "np.matmul") and len(c.args) == 2 and not c.keywords:
+            return ast.BinOp(left=c.args[0], op=ast.MatMult(), right=c.args[1])
+        if d == "np.transpose" and len(c.args) == 1 and not c.keywords:
+            return ast.Attribute(value=c.args[0], attr="T", ctx=ast.Load())
+        return c
+
+    def visit_UnaryOp(self, n: ast.UnaryOp):
+        self.generic_visit(n)
+        if isinstance(n.op, ast.UAdd):
+            return n.operand
+        return n
+
+    def visit_Constant(self, n: ast.Constant):
+        if isinstance(n.value, float) and n.value.is_integer() and abs(n.value) < 1e15:
+            return ast.Constant(value=int(n.value))
+        return n
+
+
+def canon(e) -> str:
+    """canonical text of an expression (an ast node or source text)"""
+    import copy as _copy
+    node = ast.parse(e, mode="eval").body if isinstance(e, str) else _copy.deepcopy(e)
+    node = _Canon().visit(node)
+    return ast.unparse(ast.fix_missing_locations(node)).replace(" ", "")
+
+
+def canon_in(e, *forms: str) -> bool:
+    c = canon(e)
+    return any(c == canon(f) for f in forms)
